@@ -148,6 +148,7 @@ fn check(id: &str, tier: Tier, seed: u64, args: &[String]) -> i32 {
         }
     };
     let known = load_known();
+    let _ = std::fs::remove_dir_all(format!("{}/target/sandbox", verif_root()));
     let workers: usize = arg(args, "--workers").and_then(|s| s.parse().ok()).or_else(|| std::env::var("VERIF_WORKERS").ok().and_then(|s| s.parse().ok())).unwrap_or(16);
     let scale: f64 = std::env::var("VERIF_SCALE").ok().and_then(|s| s.parse().ok()).unwrap_or(1.0);
     let thorough_secs: u64 = std::env::var("VERIF_THOROUGH_SECS").ok().and_then(|s| s.parse().ok()).unwrap_or(780);
